@@ -14,6 +14,7 @@ import DimModel.Lib.Heap
 import DimModel.Proofs.C15
 import DimModel.Lib.HeapX
 import DimModel.Proofs.C15X
+import DimModel.Proofs.C15XWF
 namespace DimModel
 namespace Heap
 
@@ -218,6 +219,80 @@ theorem xnonmut_history_frame (s : St) (xs : List XOp) (hwf : WF s.h) (henv : En
     obsArr (xrun s xs).h q = obsArr s.h q := by
   obtain ⟨v, w, sh, ax, t, hx⟩ := henv q hq
   exact obsArr_grows hwf (xrun_nonmut_grows xs hnm) (lt_of_get hx)
+
+/-! ### the heap invariant over the extended operation set, mixed histories -/
+
+/-- well-formedness (`WF`, `EnvOK`, `DimOK`) is an invariant of every step of the extended set - the nine new operations, every
+base operation and every in-place mutation (`XOpOK` = `OpOK` of a base `create`: as many axes as dimensions) -/
+theorem xwf_step (s : St) (x : XOp) (hwf : WF s.h) (henv : EnvOK s) (hdim : DimOK s) (hop : XOpOK x) :
+    WF (xstep s x).h ∧ EnvOK (xstep s x) ∧ DimOK (xstep s x) := by
+  obtain ⟨h1, h2⟩ := xstep_inv hwf (arrAt_of_env henv hdim) hop
+  exact ⟨h1, env_of_arrAt h2⟩
+
+/-- ... and of every history, mutating steps interleaved with non-mutating ones -/
+theorem xwf_run (s : St) (xs : List XOp) (hwf : WF s.h) (henv : EnvOK s) (hdim : DimOK s)
+    (hops : ∀ x ∈ xs, XOpOK x) :
+    WF (xrun s xs).h ∧ EnvOK (xrun s xs) ∧ DimOK (xrun s xs) := by
+  obtain ⟨h1, h2⟩ := xrun_inv xs hwf (arrAt_of_env henv hdim) hops
+  exact ⟨h1, env_of_arrAt h2⟩
+
+/-- the hypothesis `XOpOK` is needed: the counterexample of `wf_step`, with the transpose made by `swapaxes` -/
+theorem xwf_step_counterexample :
+    ¬ WF (xrun St.init [.base (.create [2, 3] [1, 2, 3, 4, 5, 6] [] []), .swapaxes 0 0 1]).h := by
+  have e : (xrun St.init [.base (.create [2, 3] [1, 2, 3, 4, 5, 6] [] []), .swapaxes 0 0 1]).h =
+      [.buf [1, 2, 3, 4, 5, 6], .dict [], .arr 0 [0, 1, 2, 3, 4, 5] [2, 3] [] 1,
+       .dict [], .arr 0 [0, 3, 1, 4, 2, 5] [3, 2] [0, 0] 3] := by rfl
+  rw [e]
+  intro hwf
+  have hw := hwf (.arr 0 [0, 3, 1, 4, 2, 5] [3, 2] [0, 0] 3) (by simp)
+  obtain ⟨_, _, hax⟩ := hw
+  obtain ⟨n, l, v, t, hh⟩ := hax 0 (by simp)
+  simp at hh
+
+/-- MIXED HISTORIES: after ANY history `pre` (in-place mutations interleaved with base and extended operations) run from a
+well-formed state, every following run `xs` of non-mutating operations leaves the snapshot of every array live at that point
+unchanged.  Only the INITIAL heap has to be well-formed. -/
+theorem xmixed_history_frame (s : St) (pre xs : List XOp) (hwf : WF s.h) (henv : EnvOK s) (hdim : DimOK s)
+    (hops : ∀ x ∈ pre, XOpOK x) (hnm : ∀ x ∈ xs, xisMut x = false) (q : Ref) (hq : q ∈ (xrun s pre).env) :
+    obsArr (xrun s (pre ++ xs)).h q = obsArr (xrun s pre).h q := by
+  obtain ⟨h1, h2, _⟩ := xwf_run s pre hwf henv hdim hops
+  rw [xrun_append]
+  exact xnonmut_history_frame (xrun s pre) xs h1 h2 hnm q hq
+
+/-- ... in particular every single non-mutating step anywhere in a mixed history -/
+theorem xmixed_step_frame (s : St) (pre : List XOp) (x : XOp) (hwf : WF s.h) (henv : EnvOK s) (hdim : DimOK s)
+    (hops : ∀ y ∈ pre, XOpOK y) (hnm : xisMut x = false) (q : Ref) (hq : q ∈ (xrun s pre).env) :
+    obsArr (xstep (xrun s pre) x).h q = obsArr (xrun s pre).h q := by
+  obtain ⟨h1, h2, _⟩ := xwf_run s pre hwf henv hdim hops
+  exact xnonmut_frame (xrun s pre) x h1 h2 hnm q hq
+
+/-- the hypotheses of `xwf_run` / `xmixed_history_frame` are satisfiable from the empty state by a history that uses every new
+operation and in-place writes in between -/
+example : let xs : List XOp := [.base (.create [2, 2] [1, 2, 3, 4] [("x", [5, 3], []), ("y", [0, 1], [("u", some ["m"])])] [("k", none)]),
+      .tT 0, .base (.mut 1 (.setVal 1 (-7))), .swapaxes 0 0 1, .rollaxis 0 1, .newaxis 0 "z" 1, .base (.mut 0 (.rename 1 "q")),
+      .sliceRange 0 0 0 2 1, .reduceSum 0 0, .addArr 0 0, .reindexAxis 0 0 [3, 5], .base (.mut 7 (.setVal 0 9))]
+    WF (xrun St.init xs).h ∧ EnvOK (xrun St.init xs) ∧ DimOK (xrun St.init xs) ∧ (xrun St.init xs).env.length = 9 := by
+  intro xs
+  obtain ⟨a, b, c⟩ := xwf_run St.init xs (by intro o ho; cases ho) (by intro r hr; cases hr) (by intro r hr; cases hr)
+    (by intro x hx; simp only [xs, List.mem_cons, List.not_mem_nil, or_false] at hx
+        rcases hx with rfl | rfl | rfl | rfl | rfl | rfl | rfl | rfl | rfl | rfl | rfl | rfl <;> simp [XOpOK, OpOK])
+  exact ⟨a, b, c, by rfl⟩
+
+/-- SHARING, Dataset variable (`ds = Dataset(); ds['v'] = a; b = ds['v']`): `b` is a new array object over THE SAME values
+buffer with the same view and THE SAME metadata dict as `a`; every Axis object of `b` is new (the Dataset's own copies) -/
+theorem dsVar_shares (h h' : H) (r r' : Ref) (v : Ref) (w sh : List Nat) (ax : List Ref) (t : Ref) (hwf : WF h)
+    (hx : h[r]? = some (.arr v w sh ax t)) (hop : dsVar h r = some (h', r')) :
+    ∃ ax', h'[r']? = some (.arr v w sh ax' t) ∧ h.length ≤ r' ∧ ax'.length = ax.length ∧ ∀ a ∈ ax', h.length ≤ a :=
+  dsVar_result hwf hx hop
+
+/-- ... hence on a concrete history: a value written through the Dataset variable and a metadata entry set through it REACH
+the assigned array (cell 1 := -7, attrs["n"]); renaming an axis and writing a label through it do NOT -/
+example : ((xrun St.init [.base (.create [2] [1, 2] [("x", [5, 3], [])] [("k", none)]), .dsVar 0,
+      .base (.mut 1 (.setVal 1 (-7))), .base (.mut 1 (.setAttr "n" "1")), .base (.mut 1 (.rename 0 "q")),
+      .base (.mut 1 (.setLabel 0 0 9))]).obs.map
+      fun o => o.map fun a => (a.values, a.axes.map (·.name), a.axes.map (·.labels), a.attrs.map (·.1))) =
+    [some ([1, -7], ["x"], [[5, 3]], ["k", "n"]), some ([1, -7], ["q"], [[9, 3]], ["k", "n"])] := by
+  rfl
 
 /-- SHARING, transpose (hence swapaxes / rollaxis / T of rank 1, 2): the result is a new array object over THE SAME
 value buffer and THE SAME Axis objects (permuted), with a new metadata dict -/
